@@ -1015,4 +1015,53 @@ def subOp (root : Text) : Op → Op
   | .link o p => .link (join2 root o) (join2 root p)
   | op => op
 
+/-! ## a second `DirFS` over the same directory (re-open)
+
+`DirFS(dir)` fills a NEW overlay from what the directory holds (the callback of the constructor's walk, tie
+`tie_dirfsCtorCallback`): a directory becomes `Mkdir(path, ModeDir | perm)`, a symbolic link
+`Symlink(os.Readlink(path), path)`, anything else but a character device `OpenFile(path, O_CREATE, perm)` — names,
+kinds, link targets and the nine permission bits come back; owner, times, xattrs, set-user-ID / set-group-ID /
+sticky and the mode of the root (the callback returns at `.`; a new overlay's root is `0755`) do not.  The bytes
+stay where they were (on disk; in this model: in the node).  Not modelled: the names of one disk inode come back
+as separate overlay nodes (the bytes stay shared through the disk, a later `Chmod` through one name is no longer
+seen under the other), device nodes. -/
+
+/-- what the constructor's callback makes of one node of the directory -/
+def reopenNode (root : Bool) (n : Inode) : Inode :=
+  if n.isSymlink then { n with uid := 0, gid := 0, mtime := zeroTime, xattrs := [], nlink := 0 } else
+  { n with mode := (if root then modeDir + 0o755 else if n.dir then modeDir ||| (n.mode &&& 0o777) else n.mode &&& 0o777),
+           uid := 0, gid := 0, mtime := zeroTime, xattrs := [], nlink := 0 }
+
+/-- the overlay of a `DirFS` opened over a directory whose content is `fs`: same names, same nodes, metadata as
+the callback sets it (handles opened through the first value stay what they were: `*os.File`s of the host) -/
+def reopenFS (fs : FS) : FS :=
+  { fs with nodes := fs.nodes.mapIdx fun i n => reopenNode (i == 0) n }
+
+/-- how the constructor names the root of its walk -/
+inductive RootWalk
+  /-- `fs.WalkDir(os.DirFS(dir), ".")`: the root is opened as `dir/.` — a `dir` that is a symbolic link to a
+      directory is followed -/
+  | openDot
+  /-- `filepath.WalkDir(dir, …)`: the root is `Lstat`ed — a `dir` that is a symbolic link is reported as one entry
+      and not entered -/
+  | lstatRoot
+  deriving DecidableEq, Repr
+
+/-- the walk of the constructor, read off its regenerated statements (`Generated.FS.dirfsCtorWalk`) -/
+def rootWalkOf (stmts : List String) : Option RootWalk :=
+  if stmts = ["root := os.DirFS(dir)", "fs.WalkDir(root, \".\", func)"] then some .openDot
+  else if stmts = ["filepath.WalkDir(dir, func)"] then some .lstatRoot
+  else none
+
+/-- is the directory entered? (`os.Stat(dir)`, which the constructor uses for its own checks, follows the link
+either way) -/
+def RootWalk.enters : RootWalk → (dirIsLink : Bool) → Bool
+  | .openDot, _ => true
+  | .lstatRoot, l => !l
+
+/-- the overlay the constructor builds over a directory with content `fs` named through a path that is
+(`dirIsLink`) or is not a symbolic link -/
+def ctorOverlay (w : RootWalk) (dirIsLink : Bool) (fs : FS) : FS :=
+  if w.enters dirIsLink then reopenFS fs else FS.empty
+
 end Apko.FS
